@@ -58,7 +58,7 @@ func init() {
 		Cases:          c14Cases,
 		Run:            c14Run,
 		Floor:          func(tier string) int { return 50000 },
-		Rule:           "(also operands laid over one buffer: the same elements under two shapes, a row of the first operand as the second) (plus pairs with zero extents - (0,1) and (0,0) are compatible, (0,k>1) is not - and one second source shared by 8 goroutines x 40 concurrent calls) bounded-exhaustive: every ordered pair of shapes of rank 0..4 with extents 1..4 (341^2 = 116281 pairs) through ops.MultidirectionalBroadcast and ops.UnidirectionalBroadcast, operands unique-valued so each output element identifies its source; quick rotates the element type over all 13 value-carrying types (String is probed separately) by pair index, thorough repeats the whole space for each of the 13 value-carrying element types plus 50000 random pairs of rank<=5, extents<=9. A pair is non-trivial when the two shapes differ (something is stretched, padded or must be rejected); distinct = distinct (helper-independent) (shapeA, shapeB, dtype) descriptors.",
+		Rule:           "(every 64th case: sequences of shape pairs that coincide under weak memo keys - polynomial folds with bases 10..61, unseparated decimals - the second pair needing another plan than the first) (also operands laid over one buffer: the same elements under two shapes, a row of the first operand as the second) (plus pairs with zero extents - (0,1) and (0,0) are compatible, (0,k>1) is not - and one second source shared by 8 goroutines x 40 concurrent calls) bounded-exhaustive: every ordered pair of shapes of rank 0..4 with extents 1..4 (341^2 = 116281 pairs) through ops.MultidirectionalBroadcast and ops.UnidirectionalBroadcast, operands unique-valued so each output element identifies its source; quick rotates the element type over all 13 value-carrying types (String is probed separately) by pair index, thorough repeats the whole space for each of the 13 value-carrying element types plus 50000 random pairs of rank<=5, extents<=9. A pair is non-trivial when the two shapes differ (something is stretched, padded or must be rejected); distinct = distinct (helper-independent) (shapeA, shapeB, dtype) descriptors.",
 		Exhaustive:     func(tier string) bool { return true },
 		RaceInThorough: true,
 		Technique:      "runtime monitoring: bounded-exhaustive differential test of the real helpers against an independent index-map reference, with deep input fingerprints (sources unmodified)",
